@@ -45,7 +45,8 @@ def render_all(lang, results, must_contain=()):
     from depccg.printer import to_string
     from depccg.lang import set_global_language_to
     set_global_language_to(lang)
-    for f in FORMATS[lang]:
+    order = list(FORMATS[lang]) + list(reversed(FORMATS[lang]))      # every format, then again in the opposite order on the same objects
+    for f in order:
         try:
             out = to_string(results, format=f)
         except Exception as e:
